@@ -125,7 +125,7 @@ def run(ctx):
     # fresh process / in a process where the names are rebound
     xwork = [{"tree": it["tree"], "methods": ["pickle", "cloudpickle"] + (["solution"] if n % 4 == 0 else []),
               "slot": "applied_vector_potential" if n % 8 else "disorder_epsilon"}
-             for n, it in enumerate(trees) if it["level"] <= 1 or n % (3 if quick else 1) == 0]
+             for n, it in enumerate(trees) if not it["twin"] and (it["level"] <= 1 or n % (3 if quick else 1) == 0)]
     pjobs += [("call", dict(module="harness.persist", func="params_crossproc", args={"items": c})) for c in chunks(xwork, 2 if quick else 8)]
     jobs += pjobs
     res = rf.replay_all(ctx, jobs)
